@@ -746,6 +746,122 @@ def _self_attr_uses(ci_list, attr):
     return out
 
 
+_PURE_BUILTINS = {"len", "dict", "list", "tuple", "set", "frozenset", "sorted", "enumerate", "zip", "iter", "reversed",
+                  "any", "all", "max", "min", "sum", "map", "filter", "next", "isinstance", "issubclass", "bool"}
+_READ_METHODS = {"get", "items", "keys", "values", "index", "count", "copy", "__contains__", "__getitem__", "__iter__",
+                 "__len__"}
+
+
+def _constant_table(idx, module, name):
+    """The value expression of the module-level `name` when it is a constant: bound once at module level, to a
+    tuple / list / set / dict display whose elements are literals, tuples of them, or references to classes / functions /
+    module constants, and never re-bound or filled anywhere in the package (every reference to it is an iteration, a
+    subscript read, a membership test, a reading method or an argument of a pure builtin).  None when it is state
+    (re-bound, filled, or not such a display).  AnalysisError when a reference cannot be classified."""
+    cache = idx.__dict__.setdefault("_c41_const_tables", {})
+    key = (module.name, name)
+    if key in cache:
+        if isinstance(cache[key], AnalysisError):
+            raise cache[key]
+        return cache[key]
+    try:
+        cache[key] = _constant_table_0(idx, module, name)
+    except AnalysisError as e:
+        cache[key] = e
+        raise
+    return cache[key]
+
+
+def _constant_table_0(idx, module, name):
+    import builtins
+    vals = module.assigns.get(name) or []
+    if len(vals) != 1:
+        return None
+    val = vals[0]
+    folder = get_folder(idx)
+
+    def immut(e):
+        if isinstance(e, ast.Constant):
+            return True
+        if isinstance(e, ast.Tuple):
+            return all(immut(x) for x in e.elts)
+        if isinstance(e, (ast.Name, ast.Attribute)) and attr_path(e) is not None:
+            if isinstance(idx.resolve_expr(module, e), (ClassInfo, FuncInfo)):
+                return True
+            if isinstance(e, ast.Name) and e.id not in module.assigns and isinstance(getattr(builtins, e.id, None), type):
+                return True
+        if isinstance(e, (ast.Name, ast.Attribute, ast.BinOp, ast.UnaryOp)):
+            try:
+                v = folder.fold(e, module, None)
+                return v is None or isinstance(v, (bool, int, float, str, bytes, tuple, frozenset))
+            except NotConstant:
+                return False
+        return False
+    if isinstance(val, (ast.Tuple, ast.List, ast.Set)):
+        ok = all(immut(x) for x in val.elts)
+    elif isinstance(val, ast.Dict):
+        ok = all(k is not None and immut(k) for k in val.keys) and all(immut(v) for v in val.values)
+    else:
+        ok = False
+    if not ok:
+        return None
+    kinds = []
+
+    def classify(node, parent, grand, func, globs):
+        if isinstance(node.ctx, (ast.Store, ast.Del)):
+            if isinstance(node, ast.Attribute):
+                return "mutate"
+            if func is None:
+                if isinstance(parent, ast.Assign) and len(parent.targets) == 1 and parent.targets[0] is node \
+                        and parent.value is val:
+                    return "def"
+                return "mutate"
+            return "mutate" if name in globs else "unknown"
+        if isinstance(parent, ast.Subscript) and parent.value is node:
+            return "mutate" if isinstance(parent.ctx, (ast.Store, ast.Del)) else "read"
+        if isinstance(parent, ast.Attribute) and parent.value is node:
+            if isinstance(grand, ast.Call) and grand.func is parent:
+                if parent.attr in _C18.Provenance.MUTATORS | {"sort", "reverse"}:
+                    return "mutate"
+                if parent.attr in _READ_METHODS:
+                    return "read"
+            return "unknown"
+        if isinstance(parent, (ast.For, ast.AsyncFor, ast.comprehension)) and parent.iter is node:
+            return "read"
+        if isinstance(parent, ast.Compare) and any(x is node for x in parent.comparators) \
+                and all(isinstance(o, (ast.In, ast.NotIn)) for o in parent.ops):
+            return "read"
+        if isinstance(parent, ast.Call) and any(x is node for x in parent.args) and isinstance(parent.func, ast.Name) \
+                and parent.func.id in _PURE_BUILTINS:
+            return "read"
+        return "unknown"
+
+    def visit(node, parent, grand, func, globs, names_too):
+        if isinstance(node, (ast.FunctionDef, ast.AsyncFunctionDef, ast.Lambda)):
+            func = node
+            globs = {g for x in ast.walk(node) if isinstance(x, ast.Global) for g in x.names}
+        if (names_too and isinstance(node, ast.Name) and node.id == name) or \
+                (isinstance(node, ast.Attribute) and node.attr == name):
+            kinds.append((classify(node, parent, grand, func, globs), node))
+        if isinstance(node, ast.ImportFrom) and any(a.name == name and a.asname not in (None, name) for a in node.names):
+            kinds.append(("unknown", node))
+        for ch in ast.iter_child_nodes(node):
+            visit(ch, node, parent, func, globs, names_too)
+    for m in idx.modules.values():
+        if name not in m.source:                       # an identifier of the tree occurs in its text
+            continue
+        visit(m.tree, None, None, None, set(), m is module or name in m.imports)
+    if any(k == "mutate" for (k, _x) in kinds):
+        return None
+    if sum(1 for (k, _x) in kinds if k == "def") != 1:
+        return None
+    bad = [x for (k, x) in kinds if k == "unknown"]
+    if bad:
+        raise AnalysisError("%s.%s looks like a constant table, but its use at line %s cannot be classified as a read" % (
+            module.name, name, getattr(bad[0], "lineno", "?")))
+    return val
+
+
 class _CapProvenance(_C18.Provenance):
     """Provenance (see C18) of the node objects NodeMaker answers with, where the *context* is the cap of this call:
     a key `depends on the context` only if it keeps the cap apart from every other cap of the same object - the cap
@@ -775,7 +891,7 @@ class _CapProvenance(_C18.Provenance):
 
     def flag_facts(self, env, name):
         k = getattr(env, "kinds", {}).get(name, "BIG")
-        return frozenset([k])
+        return frozenset([k]) if isinstance(k, str) else frozenset(k)
 
     def _facts(self, env, e, visiting, cyc):
         """cyc: whether a name that is defined in terms of itself (key += suffix) is granted everything on the way
@@ -861,18 +977,21 @@ class _CapProvenance(_C18.Provenance):
         return self._NONE
 
     def summary_facts(self, env, c, g, method, cyc):
-        """what every value the helper returns keeps, given which of its arguments determine the cap"""
+        """what every value the helper returns keeps, given what each of its arguments tells about the cap (the whole
+        cap, or only the string of the write / the read slot: the distinction is carried into the helper)"""
         if env.depth >= 6 or isinstance(g.node, ast.Lambda) or g.qual in self._sum_active:
             return self._NONE
         b = self.bind(g, c, method)
         if b is None:
             return self._NONE
-        flags = {q for (q, x) in b.items() if self.complete(self._facts(env, x, frozenset(), cyc))}
-        if not flags:
+        kinds = {q: self._facts(env, x, frozenset(), cyc) for (q, x) in b.items()}
+        kinds = {q: fx for (q, fx) in kinds.items() if fx}
+        if not kinds:
             return self._NONE
         self._sum_active.append(g.qual)
         try:
-            sub = self.env(g, (), flags, env.depth + 1, {})
+            sub = _C18.Provenance.env(self, g, (), set(kinds), env.depth + 1, {})
+            self._set_kinds(sub, kinds)
             rets = [n for n in sub.cfg.find(is_return) if n.id in sub.live]
             out = None
             for n in rets:
@@ -882,17 +1001,49 @@ class _CapProvenance(_C18.Provenance):
         finally:
             self._sum_active.pop()
 
+    @staticmethod
+    def _set_kinds(env, kinds):
+        """kinds: name -> 'W' / 'R' / set of facts.  When exactly one name carries the write slot and one the read
+        slot, `w or r` (the cap create_from_cap builds the node from) is the whole cap."""
+        env.kinds = {q: (frozenset([k]) if isinstance(k, str) else frozenset(k)) for (q, k) in kinds.items()}
+        w = [q for (q, k) in env.kinds.items() if k == frozenset(["W"])]
+        rd = [q for (q, k) in env.kinds.items() if k == frozenset(["R"])]
+        if len(w) == 1 and len(rd) == 1:
+            env.big_ok = {norm_src(t % {"w": w[0], "r": rd[0]}) for t in (
+                "%(w)s or %(r)s", "%(w)s if %(w)s else %(r)s", "%(r)s if not %(w)s else %(w)s",
+                "%(w)s if %(w)s is not None else %(r)s", "%(r)s if %(w)s is None else %(w)s")}
+
+    def env(self, fn, roots=(), flags=(), depth=0, binding=None):
+        """an activation reached by descent: what each argument tells about the cap (also a single slot) is carried
+        into the helper, so that a helper handed (writecap, readcap) can key a memo by `writecap or readcap`"""
+        flags = set(flags)
+        kinds = {}
+        for (q, src_) in (binding or {}).items():
+            if src_ is None or q in flags:
+                continue
+            fx = self._facts(src_[0], src_[2], frozenset(), True)
+            if fx:
+                flags.add(q)
+                kinds[q] = fx
+        e = super().env(fn, roots, flags, depth, binding)
+        if kinds:
+            self._set_kinds(e, kinds)
+        return e
+
+    @staticmethod
+    def bind(g, call, method=False):
+        """a @staticmethod called on self has no receiver parameter to drop"""
+        if method:
+            for d in getattr(g.node, "decorator_list", []):
+                if (attr_path(d) or "").rsplit(".", 1)[-1] == "staticmethod":
+                    method = False
+        return _C18.Provenance.bind(g, call, method)
+
     def top_env(self, f, flags, kinds=None):
         """activation of an analysed entry point; kinds: parameter -> 'W' / 'R' for the two cap slots"""
         env = self.env(f, (), flags)
         if kinds:
-            env.kinds = dict(kinds)
-            w = [q for (q, k) in kinds.items() if k == "W"]
-            rd = [q for (q, k) in kinds.items() if k == "R"]
-            if len(w) == 1 and len(rd) == 1:
-                env.big_ok = {norm_src(t % {"w": w[0], "r": rd[0]}) for t in (
-                    "%(w)s or %(r)s", "%(w)s if %(w)s else %(r)s", "%(r)s if not %(w)s else %(w)s",
-                    "%(w)s if %(w)s is not None else %(r)s", "%(r)s if %(w)s is None else %(w)s")}
+            self._set_kinds(env, kinds)
         return env
 
     # -- what outlives the call
@@ -933,10 +1084,82 @@ class _CapProvenance(_C18.Provenance):
                         vals = [vals]
                     if any(not isinstance(v, ast.Constant) for v in vals):
                         return "%s (class-level state, shared by every instance)" % p
+        if p is not None:
+            root = p.split(".", 1)[0]
+            m = env.fn.module
+            if root not in env.locals and root not in env.comp and root in m.assigns \
+                    and root not in m.funcs and root not in m.classes and _constant_table(self.idx, m, root) is not None:
+                return None                            # a table of literals / code references nothing rebinds or fills
         return super().state_of(env, e)
 
     # -- the walk: remember which constructors make the answer, look at memoising decorators
+    def method_names(self, env, n, e, depth=0):
+        """the strings e can be: a literal, or what is read out of module-level constant tables (a superset: every
+        string in the table).  AnalysisError when that cannot be told."""
+        if depth > 12:
+            raise AnalysisError("%s: cannot tell which method name %s is" % (env.fn.qual, src(env.fn, e)))
+        R = lambda x, nn=n: self.method_names(env, nn, x, depth + 1)      # noqa: E731
+        if isinstance(e, ast.Constant):
+            return {e.value} if isinstance(e.value, str) else set()
+        if isinstance(e, ast.Name):
+            if e.id in env.locals:
+                ds = env.fnorm.rd.get(n.id, {}).get(e.id, frozenset())
+                out = set()
+                if not ds:
+                    raise AnalysisError("%s: no definition of %s reaches line %s" % (env.fn.qual, e.id, n.lineno))
+                for d in sorted(ds):
+                    if d == C.PARAM_DEF:
+                        raise AnalysisError("%s: the method name %s is a parameter" % (env.fn.qual, e.id))
+                    dn = env.cfg.nodes[d]
+                    for dv in self.def_values(env, dn, e.id):
+                        out |= self.method_names(env, dn, dv, depth + 1)
+                return out
+            m = env.fn.module
+            tbl = _constant_table(self.idx, m, e.id) if e.id in m.assigns else None
+            if tbl is None:
+                raise AnalysisError("%s: the method name comes out of %s, which is not a constant table" % (env.fn.qual, e.id))
+            return {x.value for x in ast.walk(tbl) if isinstance(x, ast.Constant) and isinstance(x.value, str)}
+        if isinstance(e, (ast.Subscript, ast.Starred)):
+            return R(e.value)
+        if isinstance(e, (ast.Tuple, ast.List)):
+            return set().union(*[R(x) for x in e.elts]) if e.elts else set()
+        if isinstance(e, ast.IfExp):
+            return R(e.body) | R(e.orelse)
+        if isinstance(e, ast.BoolOp):
+            return set().union(*[R(x) for x in e.values])
+        if isinstance(e, ast.Call):
+            if isinstance(e.func, ast.Attribute) and e.func.attr in ("get", "items", "values", "keys", "pop"):
+                out = R(e.func.value)
+                for x in e.args[1:]:
+                    out |= R(x)
+                return out
+            if isinstance(e.func, ast.Name) and e.func.id not in env.locals and e.func.id in (
+                    "enumerate", "sorted", "reversed", "list", "tuple", "iter", "zip", "next", "dict"):
+                return set().union(*[R(x) for x in e.args]) if e.args else set()
+        raise AnalysisError("%s: cannot tell which method name %s is" % (env.fn.qual, src(env.fn, e)))
+
     def call(self, env, n, c):
+        f = c.func
+        if isinstance(f, ast.Call) and isinstance(f.func, ast.Name) and f.func.id == "getattr" \
+                and "getattr" not in env.locals and len(f.args) in (2, 3) and not f.keywords \
+                and attr_path(f.args[0]) == "self" and "self" in env.fn.params and env.fn.cls is not None:
+            # getattr(self, <name>)(..): dispatch through a table of method names - every method the name can be
+            names = self.method_names(env, n, f.args[1])
+            meths = sorted(x for x in names if isinstance(env.fn.cls.lookup(x), FuncInfo))
+            if not meths:
+                raise AnalysisError("%s calls getattr(self, %s)(..): no method of %s found under the names it can take" % (
+                    env.fn.qual, src(env.fn, f.args[1]), env.fn.cls.name))
+            if len(f.args) == 3:
+                self.value(env, n, f.args[2])
+            for nm in meths:
+                syn = ast.Call(func=ast.Attribute(value=ast.Name(id="self", ctx=ast.Load()), attr=nm, ctx=ast.Load()),
+                               args=list(c.args), keywords=list(c.keywords))
+                for x in ast.walk(syn):
+                    if not hasattr(x, "lineno"):
+                        ast.copy_location(x, c)
+                self._keep.append(syn)
+                self.call(env, n, syn)
+            return
         if isinstance(c.func, (ast.Name, ast.Attribute)) and attr_path(c.func) is not None \
                 and attr_path(c.func).split(".", 1)[0] not in env.locals:
             tgt = self.idx.resolve_expr(env.fn.module, c.func)
